@@ -139,6 +139,22 @@ func (t *routeTrie) match(uriPath, httpMethod string) (*routeTarget, []routeTarg
 			verb = lastElement[pos+1:]
 		}
 	}
+	// Bring every segment into the canonical escaped form that literals in the
+	// trie use, so that e.g. "a%2Db" finds the literal "a-b".
+	for i, segment := range path {
+		canonical, ok := pathCanonicalize(segment)
+		if !ok {
+			return nil, nil, nil
+		}
+		path[i] = canonical
+	}
+	if verb != "" {
+		canonical, ok := pathCanonicalize(verb)
+		if !ok {
+			return nil, nil, nil
+		}
+		verb = canonical
+	}
 	target, methods := t.findTarget(path, verb, httpMethod)
 	if target == nil {
 		return nil, nil, methods
@@ -430,4 +446,14 @@ type alreadyExistsError struct {
 
 func (a alreadyExistsError) Error() string {
 	return fmt.Sprintf("target for %s, method %s already exists: %s", a.pathPattern, a.method, a.existing.config.descriptor.FullName())
+}
+
+// pathCanonicalize returns the canonical escaped form of a URL path segment
+// (the form produced by pathEscape), or false if it has invalid escapes.
+func pathCanonicalize(segment string) (string, bool) {
+	unescaped, err := pathUnescape(segment, pathEncodeSingle)
+	if err != nil {
+		return "", false
+	}
+	return pathEscape(unescaped, pathEncodeSingle), true
 }
